@@ -832,18 +832,20 @@ fn value_grid(e: &mut Eng) {
             for &(c0, c1) in &CC {
                 let a = rc(Scr::<f32>::new(mk(c0, 3, x)));
                 let b = rc(Scr::<f32>::new(mk(c1, 8, y)));
+                // the build's own power function on these values (None: the back end itself panics here)
+                let pw = crate::refmodels::backend_powf_checked(x, y);
                 let r = guard(|| {
                     [
                         Sum2::new(rf(&a), rf(&b)).get(),
                         Product2::new(rf(&a), rf(&b)).get(),
                         DifferenceStream::new(rf(&a), rf(&b)).get(),
                         QuotientStream::new(rf(&a), rf(&b)).get(),
-                        ExponentStream::new(rf(&a), rf(&b)).get(),
+                        if pw.is_some() || (c0, c1) != (In::P, In::P) { ExponentStream::new(rf(&a), rf(&b)).get() } else { Ok(None) },
                         SumStream::new([dyn_getter(&a), dyn_getter(&b), dyn_getter(&a)]).get(),
                         ProductStream::new([dyn_getter(&a), dyn_getter(&b), dyn_getter(&a)]).get(),
                     ]
                 });
-                let ops: [f32; 7] = [x + y, x * y, x - y, x / y, crate::refmodels::backend_powf(x, y), x + y + x, x * y * x];
+                let ops: [f32; 7] = [x + y, x * y, x - y, x / y, pw.unwrap_or(0.0), x + y + x, x * y * x];
                 let names = ["sum2", "product2", "difference", "quotient", "exponent", "sum3", "product3"];
                 let want = |k: usize| -> W {
                     let skipping = k <= 1 || k >= 5; // sums and products skip absent inputs
@@ -866,6 +868,9 @@ fn value_grid(e: &mut Eng) {
                     Err(m) => e.violation("comb:value-grid:panic", 1, || format!("inputs {:?} ({}) and {:?} ({}): a combinator panicked: {}", x, cat_name(&[c0]), y, cat_name(&[c1]), m)),
                     Ok(got) => {
                         for k in 0..7 {
+                            if k == 4 && pw.is_none() && (c0, c1) == (In::P, In::P) {
+                                continue; // not judged: the back end panics on these values
+                            }
                             let w = want(k);
                             let ok = match (&got[k], w) {
                                 (Ok(Some(d)), W::Val(t, v)) => d.time == Time(t) && same(d.value, v),
